@@ -111,9 +111,14 @@ namespace vg
         std::memcpy(&i, &d, 8);
         return i < 0 ? std::numeric_limits<int64_t>::min() - i : i;
     }
-    inline int64_t ulpdist(double a, double b)  // ord(b) - ord(a)
+    inline int64_t ulpdist(double a, double b)  // ord(b) - ord(a), saturating
     {
-        return ord(b) - ord(a);
+        __int128 d = static_cast<__int128>(ord(b)) - static_cast<__int128>(ord(a));
+        if (d > std::numeric_limits<int64_t>::max())
+            return std::numeric_limits<int64_t>::max();
+        if (d < std::numeric_limits<int64_t>::min())
+            return std::numeric_limits<int64_t>::min();
+        return static_cast<int64_t>(d);
     }
     inline bool biteq(double a, double b)
     {
